@@ -330,12 +330,15 @@ Definition reduce_monitor (st : State) (st_exists : bool) (cu : Cursor) (cu_exis
      F1  no open cached lane (cache lost / never filled) and no snapshot in the
          finish payload: the call fails with ErrMessageEventStreamCacheMiss,
          proposes nothing (so nothing durable changes);
-     F2  the call succeeds: the completed marker (lane __finish__) is durable and
-         every open cached lane with a non-empty cached snapshot that was not
-         already durable is now a durable terminal lane whose snapshot is the
+     F2  the call succeeds: every open cached lane with a non-empty (non-null)
+         cached snapshot that was not already durable, and whose flush id was
+         not used before, is now a durable terminal lane whose snapshot is the
          cached one (or the snapshot the finish payload itself carries).
-   Known-finding signature 2: F2 fails while the finish payload is a JSON object
-   that decodeMessageEventTerminalPayload cannot decode (p_obj && !p_tok). *)
+         (That the completed marker itself is written exactly when the finish
+         id is new is part of the table specification above.)
+   Known-finding signature 2: every such lane is finalized but one lost its
+   snapshot, while the finish payload is a non-empty JSON object that
+   decodeMessageEventTerminalPayload cannot decode (p_obj && !merge_decodes). *)
 
 Definition cache_lanes (cache : list CacheDump) c t m : list State :=
   match find (fun d => msg_eqb (cd_channel d) (cd_ctype d) (cd_msgno d) c t m) cache with
@@ -392,12 +395,10 @@ Definition finish_monitor (g : DB) (chan_hs : list (bytes * N)) (cache : list Ca
         match err with
         | ENone =>
           let pending := filter (lane_pending g hs fin) opens in
-          if negb (match dumped_lane (no_dumps obs) hs c t m EventKeyFinish with
-                   | Some s => isMessageEventTerminal (st_status s) | None => false end
-                   && forallb (lane_finalized (no_dumps obs) hs fin) pending)
+          if negb (forallb (lane_finalized (no_dumps obs) hs fin) pending)
           then 1
           else if forallb (lane_keeps_snapshot (no_dumps obs) hs fin) pending then 0
-          else if p_obj (e_payload fin) && negb (p_tok (e_payload fin)) then 2 else 1
+          else if p_obj (e_payload fin) && negb (merge_decodes (e_payload fin)) then 2 else 1
         | _ => 0      (* failed: nothing durable may change, checked by the table comparison *)
         end
     end
